@@ -620,14 +620,4 @@ theorem substRat_eval (num den sn sd : List K) (w : K) (hD : peval sd w ≠ 0) :
   have : peval sd w ^ (max num.length den.length - 1) ≠ 0 := pow_ne_zero _ hD
   rw [mul_div_mul_left _ _ this]
 
-/-! ### the DFT bin where `a q = 1` (a an N-th root of unity) -/
-
-theorem dftSum_root_bin (wt : ℕ → K) (a q : K) (haq : a * q = 1) (N : ℕ) :
-    dftSum (fun n => wt n * a ^ n) q N = dftSum wt 1 N := by
-  induction N with
-  | zero => rfl
-  | succ N ih =>
-    simp only [dftSum, ih, powK_eq, one_pow, mul_one]
-    rw [mul_assoc, ← mul_pow, haq, one_pow, mul_one]
-
 end Lcapy.DT
